@@ -46,11 +46,9 @@ func checkTable(c *ctx, tc tblCase, wantK bool) []string {
 	guard(c, "table.Writer", tc, limitLong, func() { bt, err = buildTable(tc) })
 	if err != nil || bt == nil {
 		if tc.Lg >= 64 {
-			// uint64(1<<baseLg) is 0: NewWriter's flush(0) divides by zero; the model says so too
-			c.res.Count("table_writer_panics_baselg_ge_64", 1)
-			if wantK {
-				cases = append(cases, fmt.Sprintf("CFB %s (%d)%%Z %d [] None []", vlib.CoqBool(tc.Ifl), tc.Bpk, tc.Lg))
-			}
+			// before the repair 18bde3e the writer could not be created for FilterBaseLg >= 64 (division by 1<<64 == 0);
+			// the option getter now bounds the value, so a failure here is a violation again
+			c.res.Violate("table.Writer cannot be created with FilterBaseLg >= 64 (the option getter must bound it by 63)", tc)
 			return cases
 		}
 		if err != nil {
@@ -81,6 +79,12 @@ func checkTable(c *ctx, tc tblCase, wantK bool) []string {
 		effLg := tc.Lg
 		if effLg <= 0 {
 			effLg = 11
+		}
+		if effLg > 63 {
+			// opt.GetFilterBaseLg bounds the value by 63 since the repair 18bde3e (1<<64 is 0 and the table
+			// writer divided by it); the case Lg = 64 stays in the generator: the writer must now work with 63
+			effLg = 63
+			c.res.Count("table_written_with_clamped_baselg", 1)
 		}
 		if int(baseLg) != effLg {
 			c.res.Violate(fmt.Sprintf("reader sees base lg %d, the table was written with %d", baseLg, effLg), tc)
